@@ -276,3 +276,38 @@ func containsAny(s string, subs ...string) bool {
 	}
 	return false
 }
+
+// snapLeafOuts is snapOuts restricted to what a result SAYS: scalars, strings, byte strings, errors, times.
+// Results that are library structures (or pointers to them) are not rendered - their unexported fields are not
+// answers; what they say is reached through their own accessors, which indepCalls invokes one level down.
+func snapLeafOuts(out []reflect.Value) [32]byte {
+	vals := make([]any, 0, len(out))
+	for _, o := range out {
+		if !o.IsValid() || !o.CanInterface() {
+			continue
+		}
+		if e, isErr := o.Interface().(error); isErr && e != nil {
+			vals = append(vals, "error:"+e.Error())
+			continue
+		}
+		t := o.Type()
+		for t.Kind() == reflect.Ptr {
+			t = t.Elem()
+		}
+		if adapt.IsLibraryType(o.Type()) {
+			switch t.Kind() {
+			case reflect.Struct, reflect.Interface, reflect.Map:
+				continue
+			case reflect.Slice, reflect.Array:
+				if k := t.Elem().Kind(); k == reflect.Struct || k == reflect.Ptr || k == reflect.Interface || k == reflect.Slice {
+					continue
+				}
+			}
+		}
+		if t.Kind() == reflect.Interface || (t.Kind() == reflect.Slice && t.Elem().Kind() == reflect.Ptr) {
+			continue
+		}
+		vals = append(vals, o.Interface())
+	}
+	return snap.Hash(vals, snap.Options{})
+}
